@@ -242,8 +242,10 @@ def s16_multiarea(ctx):
         res.distribution["rows=%d empty_rows=%d" % (len(mapped), mapped.count(False))] = res.distribution.get("rows=%d empty_rows=%d" % (len(mapped), mapped.count(False)), 0) + 1
         if real != stub:
             diff = [k_ for k_ in real if real[k_] != stub[k_]] if isinstance(real, dict) and isinstance(stub, dict) else "raised"
+            both = isinstance(real, dict) and isinstance(stub, dict)
             res.disagreements.append(Disagreement("S16-multiarea", {"stream": "S16-multiarea", "traces": traces, "area_wkts": wkts, "t": t},
-                                                  stub if isinstance(stub, str) else {k_: stub[k_] for k_ in diff}, real if isinstance(real, str) else {k_: real[k_] for k_ in diff}, True,
+                                                  {k_: stub[k_] for k_ in diff} if both else (stub if isinstance(stub, str) else "completes"),
+                                                  {k_: real[k_] for k_ in diff} if both else (real if isinstance(real, str) else "completes"), True,
                                                   f"results differ between the spatial index and all-pairs candidates: {diff}"))
     res.samples = [{"traces": cases[0][0][:3], "areas": len(cases[0][1])}]
     return res
